@@ -50,7 +50,7 @@ def run_store(ctx, pid, deletes):
     runs.append(("sim", dict(spec="GSpecSim", T=4, depth=16, deletes=deletes), "num=%d" % n_sim, 2 if not thorough else 3, False))
     # scenario plans (kinds of steps prescribed, arguments random): rewrite-after-delete, two sessions,
     # data-only writers, explicit commits
-    for plan in (1, 2, 3, 4, 5):
+    for plan in (1, 2, 3, 4, 5, 8):
         runs.append(("plan%d" % plan, dict(spec="GSpecSim", T=4, depth=16, deletes=deletes, plan=plan),
                      "num=%d" % ((5 if not thorough else 60) * scale), 2 if not thorough else 3, False))
     # one session of many one-sample commits, replayed with a 1-byte data type and a tiny file cap:
